@@ -71,6 +71,7 @@ def make_oldcall(interp):
 
 # --------------------------------------------------------------------------- top-level verification of one function
 def verify_function(interp, key, contract, max_paths=4000):
+    interp.cur_top_contract_key = key
     fi = interp.sb.func(key)
     rep = FunctionReport(key)
     rep.sha = fi.sha
@@ -324,6 +325,13 @@ def apply_contract(interp, fi, c, args, kwargs, fr, node):
     oldenv = dict(env)
     if isinstance(selfobj, Obj):
         oldenv['self'] = snapshot_obj(selfobj)
+    # lemma instances the CALLER's contract asks to be brought in right before this call (evaluated in the caller's frame)
+    top = interp.contracts.get(interp.cur_top_contract_key or '', {})
+    hints = (top.get('call_lemmas') or {}).get(fi.qualname)
+    if hints and fr is not None and not fr.spec:
+        if callable(hints):
+            hints = hints(interp, fr, getattr(node, 'lineno', interp.cur_line))
+        interp.assume_lemmas(hints, fr)
     interp._old_frames.append(Frame(fi, oldenv, spec=True))
     interp.ghost_frames.append({g: interp.fresh_typed('ghost.' + g, ty) for g, ty in c.get('ghost_locals', {}).items()})
     try:
